@@ -277,10 +277,18 @@ def meta_linear(ctx, quick):
         # incompatible meta
         other_legs = [tgen.perturb_leg(rng, cfg, sym, l) for l in legs]
         if sym != 'dense' and [o.t for o in other_legs] != [l.t for l in legs]:
-            z = tgen.rtensor(rng, cfg, other_legs, n=n)
+            # presented with the same LOGICAL leg order as the tensor the meta was taken from
+            if how == 'meta_lazy':
+                z = tgen.rtensor(rng, cfg, [other_legs[p_] for p_ in perm], n=n)
+            else:
+                z = tgen.rtensor(rng, cfg, other_legs, n=n)
+                if how in ('x_lazy', 'both_lazy'):
+                    z = z.transpose(perm)
             zl = z.get_legs()
             zl = list(zl) if isinstance(zl, (list, tuple)) else [zl]
-            extra = any(t not in dict(zip(l.t, l.D)) for o, l in zip(zl, legs) for t in o.t) if z.size else False
+            rl = ref.get_legs()
+            rl = list(rl) if isinstance(rl, (list, tuple)) else [rl]
+            extra = any(t not in dict(zip(l.t, l.D)) for o, l in zip(zl, rl) for t in o.t) if z.size else False
             if extra:
                 try:
                     z.to_dict(level=0, meta=meta, resolve_ops=ro[3])
